@@ -66,45 +66,7 @@ func C11(p *core.Program, r *core.Report) {
 	d1Lemmas(p, r)
 
 	// ---- D2
-	nNow := 0
-	for _, fn := range units(p) {
-		for _, b := range fn.Blocks {
-			for _, in := range b.Instrs {
-				switch x := in.(type) {
-				case *ssa.Select:
-					r.Add("D2", unitName(p, fn)+": select", p.Pos(x.Pos()), false, "select chooses among ready channels nondeterministically")
-				case *ssa.Go:
-					r.Add("D2", unitName(p, fn)+": go statement", p.Pos(x.Pos()), false, "goroutine scheduling is a source of nondeterminism")
-				case ssa.CallInstruction:
-					f := core.Callee(x)
-					if f == nil {
-						continue
-					}
-					pp := core.FnPkgPath(f)
-					name := f.String()
-					switch {
-					case pp == "math/rand" || pp == "math/rand/v2" || pp == "crypto/rand":
-						r.Add("D2", unitName(p, fn)+": "+name, p.Pos(in.Pos()), false, "random numbers")
-					case name == "os.Getenv" || name == "os.Environ" || name == "os.Hostname" || name == "os.Getpid" || name == "os.LookupEnv":
-						r.Add("D2", unitName(p, fn)+": "+name, p.Pos(in.Pos()), false, "environment dependent value")
-					case name == "time.Now" || name == "time.Since":
-						nNow++
-						if v, ok := in.(ssa.Value); ok {
-							bad := timeLeaks(p, v)
-							r.Add("D2", fmt.Sprintf("%s: clock value #%d stays in timing data", unitName(p, fn), nthCall(fn, in, "time.")), p.Pos(in.Pos()), len(bad) == 0, "every use must be TimingInfo/TimingEntry, AddEntry, Sub/Since or a timing log call", bad...)
-						}
-					case strings.HasPrefix(name, "fmt."):
-						if len(x.Common().Args) > 0 {
-							if s, ok := core.ConstString(x.Common().Args[0]); ok && strings.Contains(s, "%p") {
-								r.Add("D2", unitName(p, fn)+": pointer formatting", p.Pos(in.Pos()), false, "%p prints an address")
-							}
-						}
-					}
-				}
-			}
-		}
-	}
-	r.Add("D2", "clock reads examined", "", nNow >= 8, fmt.Sprintf("%d time.Now/time.Since calls in module code", nNow))
+	checkNondeterminismSources(p, r, "D2")
 
 	// ---- D5: the same for the third-party code the entry points run (everything reachable from
 	// Apply/ApplyForReader/ApplyForFile that is neither module nor standard library): a goroutine
@@ -967,4 +929,48 @@ func orderLeak(start *ssa.Phi) string {
 		}
 	}
 	return ""
+}
+
+// checkNondeterminismSources (D2 of C11, shared with C12-G5): no goroutines/select, random numbers,
+// environment values or pointer formatting in module code, and clock values stay in timing data.
+func checkNondeterminismSources(p *core.Program, r *core.Report, rule string) {
+	nNow := 0
+	for _, fn := range units(p) {
+		for _, b := range fn.Blocks {
+			for _, in := range b.Instrs {
+				switch x := in.(type) {
+				case *ssa.Select:
+					r.Add(rule, unitName(p, fn)+": select", p.Pos(x.Pos()), false, "select chooses among ready channels nondeterministically")
+				case *ssa.Go:
+					r.Add(rule, unitName(p, fn)+": go statement", p.Pos(x.Pos()), false, "goroutine scheduling is a source of nondeterminism")
+				case ssa.CallInstruction:
+					f := core.Callee(x)
+					if f == nil {
+						continue
+					}
+					pp := core.FnPkgPath(f)
+					name := f.String()
+					switch {
+					case pp == "math/rand" || pp == "math/rand/v2" || pp == "crypto/rand":
+						r.Add(rule, unitName(p, fn)+": "+name, p.Pos(in.Pos()), false, "random numbers")
+					case name == "os.Getenv" || name == "os.Environ" || name == "os.Hostname" || name == "os.Getpid" || name == "os.LookupEnv":
+						r.Add(rule, unitName(p, fn)+": "+name, p.Pos(in.Pos()), false, "environment dependent value")
+					case name == "time.Now" || name == "time.Since":
+						nNow++
+						if v, ok := in.(ssa.Value); ok {
+							bad := timeLeaks(p, v)
+							r.Add(rule, fmt.Sprintf("%s: clock value #%d stays in timing data", unitName(p, fn), nthCall(fn, in, "time.")), p.Pos(in.Pos()), len(bad) == 0, "every use must be TimingInfo/TimingEntry, AddEntry, Sub/Since or a timing log call", bad...)
+						}
+					case strings.HasPrefix(name, "fmt."):
+						if len(x.Common().Args) > 0 {
+							if s, ok := core.ConstString(x.Common().Args[0]); ok && strings.Contains(s, "%p") {
+								r.Add(rule, unitName(p, fn)+": pointer formatting", p.Pos(in.Pos()), false, "%p prints an address")
+							}
+						}
+					}
+				}
+			}
+		}
+	}
+	r.Add(rule, "clock reads examined", "", nNow >= 8, fmt.Sprintf("%d time.Now/time.Since calls in module code", nNow))
 }
